@@ -5,6 +5,9 @@ package main
 
 import (
 	"bufio"
+	"go/ast"
+	"go/parser"
+	"go/token"
 	"encoding/json"
 	"flag"
 	"fmt"
@@ -329,12 +332,21 @@ func runProperty(id, tier, onlyHarness, onlyCases string, nworkers int, noReplay
 				cases = append(cases, n)
 			}
 		} else {
-			for c := 0; c < ts.Cases; c++ {
+			for c := ts.First; c < ts.First+ts.Cases; c++ {
 				cases = append(cases, c)
 			}
 		}
 		hr := runHarness(self, work, p, hi, tier, cases, nworkers, seed, ts)
 		results = append(results, hr)
+		var sigs []string
+		for s := range hr.cex {
+			sigs = append(sigs, s)
+		}
+		sort.Strings(sigs)
+		fmt.Printf("HARNESS %s cases=%d paths=%d outcomes=%v cex_signatures=%d seconds=%.1f\n", h.Name, len(cases), hr.paths, hr.outcomes, len(sigs), hr.seconds)
+		for _, s := range sigs {
+			fmt.Printf("  candidate %s x%d %v\n", s, hr.cex[s].Count, hr.cex[s].Cex.Assignment)
+		}
 	}
 	return finish(p, tier, seed, results, work, t0, noReplay)
 }
@@ -477,7 +489,10 @@ func (hr *harnessResult) absorb(spec *workerSpec, l *workerLine) {
 				hr.cex[sig] = rec
 			}
 		}
-		if r.Witness != nil && len(l.Cex) == 0 && r.Outcome == "ok" {
+		if (r.Witness != nil || r.Trace != nil || r.DecisionsV != nil) && len(l.Cex) == 0 && r.Outcome == "ok" {
+			if r.Witness == nil {
+				r.Witness = map[string]string{}
+			}
 			if len(hr.okSamples) < 5000 {
 				hr.okSamples = append(hr.okSamples, r)
 			}
@@ -526,26 +541,84 @@ func panicLabel(kind, msg string) string {
 
 // ---------- finishing: vacuity, replay, known findings, evidence ----------
 
-var labelRe = regexp.MustCompile(`Vs(Assert|Reach)\(\s*"([^"]+)"`)
-
+// expectedLabels statically collects the VsAssert / VsReach labels that the registered harness
+// functions of p can reach (transitively through functions defined in the harness files).
 func expectedLabels(p *propertySpec) (asserts, reaches []string) {
 	files, _ := overlayFiles(p)
-	seenA, seenR := map[string]bool{}, map[string]bool{}
+	type fnInfo struct {
+		asserts, reaches, callees []string
+	}
+	fns := map[string]*fnInfo{}
+	fset := token.NewFileSet()
 	for _, src := range files {
-		if strings.HasSuffix(src, "vsym.go") || strings.HasSuffix(src, "_lib.go") {
+		if strings.HasSuffix(src, "vsym.go") {
 			continue
 		}
-		b, err := os.ReadFile(src)
+		f, err := parser.ParseFile(fset, src, nil, 0)
 		if err != nil {
 			continue
 		}
-		for _, m := range labelRe.FindAllStringSubmatch(string(b), -1) {
-			if m[1] == "Assert" {
-				seenA[m[2]] = true
-			} else {
-				seenR[m[2]] = true
+		for _, d := range f.Decls {
+			fd, ok := d.(*ast.FuncDecl)
+			if !ok || fd.Body == nil {
+				continue
 			}
+			name := fd.Name.Name
+			if fd.Recv != nil {
+				name = "method." + name
+			}
+			info := &fnInfo{}
+			fns[name] = info
+			ast.Inspect(fd.Body, func(n ast.Node) bool {
+				ce, ok := n.(*ast.CallExpr)
+				if !ok {
+					return true
+				}
+				switch fun := ce.Fun.(type) {
+				case *ast.Ident:
+					if (fun.Name == "VsAssert" || fun.Name == "VsReach") && len(ce.Args) > 0 {
+						if lit, ok := ce.Args[0].(*ast.BasicLit); ok && lit.Kind == token.STRING {
+							l, _ := strconv.Unquote(lit.Value)
+							if fun.Name == "VsAssert" {
+								info.asserts = append(info.asserts, l)
+							} else {
+								info.reaches = append(info.reaches, l)
+							}
+						}
+					} else {
+						info.callees = append(info.callees, fun.Name)
+					}
+				case *ast.SelectorExpr:
+					info.callees = append(info.callees, "method."+fun.Sel.Name)
+				}
+				return true
+			})
 		}
+	}
+	seen := map[string]bool{}
+	seenA, seenR := map[string]bool{}, map[string]bool{}
+	var visit func(name string)
+	visit = func(name string) {
+		if seen[name] {
+			return
+		}
+		seen[name] = true
+		info := fns[name]
+		if info == nil {
+			return
+		}
+		for _, l := range info.asserts {
+			seenA[l] = true
+		}
+		for _, l := range info.reaches {
+			seenR[l] = true
+		}
+		for _, c := range info.callees {
+			visit(c)
+		}
+	}
+	for _, h := range p.Harnesses {
+		visit(h.Name)
 	}
 	for k := range seenA {
 		asserts = append(asserts, k)
@@ -843,7 +916,7 @@ func finish(p *propertySpec, tier string, seed int64, results []*harnessResult, 
 		sig := c.signature()
 		matched := false
 		for _, k := range known {
-			if k.Signature == sig {
+			if signatureMatches(k.Signature, sig) {
 				matched = true
 				if !k.seen {
 					k.seen = true
@@ -961,6 +1034,25 @@ func finish(p *propertySpec, tier string, seed int64, results []*harnessResult, 
 		return 2
 	}
 	return 0
+}
+
+// signatureMatches: harness and label equal, and every class token of the finding occurs in the
+// class set of the counterexample.
+func signatureMatches(finding, cex string) bool {
+	fp, cp := strings.SplitN(finding, "/", 3), strings.SplitN(cex, "/", 3)
+	if len(fp) != 3 || len(cp) != 3 || fp[0] != cp[0] || fp[1] != cp[1] {
+		return finding == cex
+	}
+	have := map[string]bool{}
+	for _, t := range strings.Split(cp[2], ",") {
+		have[t] = true
+	}
+	for _, t := range strings.Split(fp[2], ",") {
+		if t != "" && !have[t] {
+			return false
+		}
+	}
+	return fp[2] != "" || cp[2] == ""
 }
 
 func round2(f float64) float64 { return float64(int(f*100+0.5)) / 100 }
